@@ -462,6 +462,9 @@ def build_node(spec, S, calls, fn_wrap=None, source_kwargs=None):
                 kw['key'] = fw(nid, 'key', k) if callable(k) else k
             if spec.get('timeout') is not None:
                 kw['timeout'] = spec['timeout']
+                if spec.get('timeout_np'):
+                    import numpy as _np
+                    kw['timeout'] = _np.dtype(spec['timeout_np']).type(spec['timeout'])     # a numpy scalar
             n = ups[0].partition(spec['n'], **kw)
         elif op == 'partition_unique':
             k = _realkey(spec.get('key', 'ident'))
